@@ -322,6 +322,9 @@ pub mod checks {
                     for (di, d) in ds.iter().enumerate() {
                         if let Some((a, b)) = only { if (qi, di) != (a, b) { continue; } }
                         else if (qi + di) % stride != 0 && di >= always() { continue; }
+                        // the two deeply nested documents: at most two segments and one `..` (a descendant of a descendant of 600 nodes is quadratic)
+                        if name != "e2e_ext" && (di == always_small() || di == always_small() + 1)
+                            && (q.segments.len() > 2 || q.segments.iter().filter(|s| matches!(s, Segment::Descendant(_))).count() > 1) { continue; }
                         let r1 = e2e_one(q, d, d, &mut rep, "serde_json::Value", (qi, di));
                         if name == "e2e_ext" { continue; }   // the second implementation has no extension functions (the trait's default returns null)
                         // quick: the second implementation on every pair with a curated document, on every other pair with a random one
@@ -329,6 +332,11 @@ pub mod checks {
                         // C15: the same query over a second Queryable implementation of the same document
                         let j = from_value(d);
                         let r2 = e2e_one(q, &j, d, &mut rep, "kjson::J", (qi, di));
+                        if di < always() && di >= always_small() {
+                            // curated documents with repeated subtrees, through the third implementation (equal containers share one allocation)
+                            let r = from_value_shared(d);
+                            let _ = e2e_one(q, &r, d, &mut rep, "kjson::R(shared subtrees)", (qi, di));
+                        }
                         if di < always() {
                             // the same document seen through a view whose objects list their members in another order:
                             // the result must follow THAT order (the mirror is generic in the data type)
@@ -914,7 +922,9 @@ pub mod checks {
     pub fn group_pointer_text(_tier: &str, _seed: u64, _only: Option<(usize, usize)>) -> Report {
         let mut rep = Report::new("pointer_text");
         let v = json!(null);
-        let names = ["a", "ab", "a b", "", "0", "é", "𝄞", "a'b", "'", "\\", "a\\b", "\n", "e\nf", "\t", "\u{1}", "\u{7f}", "\"", "\"d\"", "'q'", "a/b", "~", "[", "]", "$"];
+        let names = ["a", "ab", "a b", "", "0", "é", "𝄞", "a'b", "'", "\\", "a\\b", "\n", "e\nf", "\t", "\u{1}", "\u{7f}", "\"", "\"d\"", "'q'", "a/b", "~", "[", "]", "$",
+                     // code points whose LOW BYTE is an ASCII character that matters in a path (' \\ " / [ ] LF TAB NUL DEL): a classification by byte must not see them
+                     "\u{127}", "\u{15c}", "\u{5c27}", "\u{4e5c}", "\u{122}", "\u{12f}", "\u{15b}", "\u{15d}", "\u{10a}", "\u{109}", "\u{100}", "\u{17f}", "\u{127}ob\u{17c}", "a\u{5c27}b"];
         let parents = ["$", "$['x']", "$[0]", ""];
         for (ni, n) in names.iter().enumerate() {
             for p in parents {
@@ -948,7 +958,9 @@ pub mod checks {
         let doc = json!({"a": 1, "ab": 2, "a b": 3, "": 4, "é": 5, "a'b": 6, "\\": 7, "e\nf": 8, "\"d\"": 9, "'q'": 10, "a/b": 11, "\t": 12, "\\t": 13, "☺": 14, "a\"b": 15, "0": 16, "a\\/b": 17, "\\\\": 18, "\\/": 19, "/": 20, "'a'": 21, "\u{e9}\u{e9}": 22, "'a": 23, "dogs'": 24, "'": 25, "dogs": 26});
         let texts = ["a", "ab", "é", "0", "'a'", "\"a\"", "'a b'", "\"a b\"", "''", "\"\"", "'é'", "'a\\'b'", "\"a'b\"", "'\\\\'", "'e\\nf'", "'\\t'",
                      "'\\u0061'", "'\\u263A'", "'\\u263a'", "'a\\/b'", "'a\"b'", "\"a\\\"b\"", "'zz'", "zz", "'\\\"d\\\"'",
-                     "'a\\\\/b'", "'\\\\\\\\'", "'\\\\/'", "'\\/'", "\"'a'\"", "\"'q'\"", "'\\u00E9'", "'\\u00E9\\u00E9'", "'\\u00e9'", "'a\\u0020b'", "'\\uD83D\\uDE00'", "'\\'a'", "'dogs\\''", "'\\''", "\"'a\"", "\"dogs'\"", "'\\uD834\\uDD1E'", "'\\uDC00'"];
+                     "'a\\\\/b'", "'\\\\\\\\'", "'\\\\/'", "'\\/'", "\"'a'\"", "\"'q'\"", "'\\u00E9'", "'\\u00E9\\u00E9'", "'\\u00e9'", "'a\\u0020b'", "'\\uD83D\\uDE00'", "'\\'a'", "'dogs\\''", "'\\''", "\"'a\"", "\"dogs'\"", "'\\uD834\\uDD1E'", "'\\uDC00'",
+                     // blank space inside the quotes is part of the name (the document has `a`, `ab`, `a b` but none of these)
+                     "' a'", "'a '", "' a '", "\" a\"", "'ab '", "'  '", "' a b'", "'a  b'", "'\ta'"];
         for (ti, t) in texts.iter().enumerate() {
             rep.evaluations += 1;
             let want: Vec<(usize, String)> = match name_of(t) {
@@ -983,19 +995,25 @@ pub mod checks {
     pub fn group_regex(_tier: &str, _seed: u64, _only: Option<(usize, usize)>) -> Report {
         let mut rep = Report::new("regex");
         let root = json!(null);
-        let subjects = [json!("ab"), json!("xb"), json!("ax"), json!("a"), json!("b"), json!(""), json!("abc"), json!("aXb"), json!("é"), json!("a\nb"), json!("1"), json!("a.b"), json!("^a$"), json!("a$"), json!("ba"), json!("bb"), json!("a\\b"), json!("\\"), json!("\\\\"), json!("C:\\dir"), json!("C:5ir"), json!("+"), json!("abcdefgh"), json!("éééééééé"), json!("abc"),
+        let subjects = [json!("ab"), json!("xb"), json!("ax"), json!("a"), json!("b"), json!(""), json!("abc"), json!("aXb"), json!("é"), json!("a\nb"), json!("1"), json!("a.b"), json!("^a$"), json!("a$"), json!("ba"), json!("bb"), json!("a\\b"), json!("\\"), json!("\\\\"), json!("C:\\dir"), json!("C:5ir"), json!("+"), json!("abcdefgh"), json!("."), json!("b."), json!("x.y"), json!("xay"), json!("x,y"), json!("A"), json!("a\rb"), json!("éééééééé"), json!("abc"),
                         json!(1), json!(null), json!(true), json!(["a"]), json!({"a": "a"})];
         let patterns = [json!("a|b"), json!("a"), json!("a."), json!("^a"), json!("b$"), json!("^a$|b"), json!("[ab]+"), json!("a*"), json!(".*"), json!("\\."), json!("a\\.b"), json!("é"), json!("\\p{L}"),
                         json!("(a|b)c?"), json!("a|ab"), json!("(a|ab)c?"), json!("a?|ab"), json!("ab|a"), json!("'"), json!("\""), json!("'é"), json!("'a'"), json!("[^a]"), json!("a{2}"), json!("("), json!("[a"), json!(1), json!(null), json!(""), json!("^$"), json!("\\^a\\$"),
                         json!("^a|b$"), json!("^a\\$"), json!("^a|^b"), json!("^ab$"), json!("^(a|b)$"), json!("^a|b"), json!("a|b$"), json!("^a$|^b$"), json!("^.$"), json!("^a\\$|b$"),
-                        json!("\\w{3,16}"), json!("\\p{L}{8}"), json!("\\w{1,20}"), json!("[\\p{L}\\p{N}]{1,12}"), json!("a\\\\b"), json!("\\\\+"), json!("C:\\\\dir"), json!("\\\\\\\\")];
+                        json!("\\w{3,16}"), json!("\\p{L}{8}"), json!("\\w{1,20}"), json!("[\\p{L}\\p{N}]{1,12}"), json!("a\\\\b"), json!("\\\\+"), json!("C:\\\\dir"), json!("\\\\\\\\"),
+                        // round 5: a dot inside a character class is a literal dot; Unicode classes on ASCII subjects
+                        json!("[.]"), json!("[^.]+"), json!("x[.,]y"), json!("[a.]+"), json!("x.y"), json!("\\p{Lu}"), json!("[a\u{e9}]"), json!("[^\u{e9}]"), json!("a.b"), json!("[.]|a")];
         for (si, s) in subjects.iter().enumerate() {
             for (pi, p) in patterns.iter().enumerate() {
                 for search in [false, true] {
                     rep.evaluations += 1;
                     let want = match (s.as_str(), p.as_str()) { (Some(s), Some(p)) => if search { regex_find(s, p) } else { regex_full(s, p) }, _ => false };
                     if want { rep.nontrivial += 1; }
-                    let (ls, rs) = (State::data(&root, Data::Ref(Pointer::new(s, "$".to_string()))), State::data(&root, Data::Value(p.clone())));
+                  // the subject as a document node and the pattern as a computed value, and the other way round (a literal subject)
+                  for shape in 0..2 {
+                    if shape == 1 { rep.evaluations += 1; if want { rep.nontrivial += 1; } }
+                    let (ls, rs) = if shape == 0 { (State::data(&root, Data::Ref(Pointer::new(s, "$".to_string()))), State::data(&root, Data::Value(p.clone()))) }
+                                   else { (State::data(&root, Data::Value(s.clone())), State::data(&root, Data::Ref(Pointer::new(p, "$".to_string())))) };
                     let got = catch_unwind(AssertUnwindSafe(|| crate::query::test_function::verif_x::regex(ls, rs, search).ok_val()));
                     let ob = if search { "regex.search" } else { "regex.match" };
                     // the finding on escaped backslashes in patterns covers exactly one behaviour: the pattern with `\\\\` collapsed to `\\`
@@ -1006,8 +1024,9 @@ pub mod checks {
                         Err(_) => rep.fail("regex.no_panic", &[], json!({"subject": s, "pattern": p, "qi": si, "di": pi, "search": search})),
                         other => { let obs = other.ok().flatten();
                                    let f: Vec<String> = if has_bs && obs == Some(Value::Bool(known)) { vec!["pattern-with-escaped-backslash".to_string()] } else { vec![] };
-                                   rep.fail(ob, &f, json!({"subject": s, "pattern": p, "qi": si, "di": pi, "observed": format!("{:?}", obs), "expected": want})) }
+                                   rep.fail(ob, &f, json!({"subject": s, "pattern": p, "qi": si, "di": pi, "observed": format!("{:?}", obs), "expected": want, "subject_is": if shape == 0 { "node" } else { "value" }})) }
                     }
+                  }
                 }
             }
         }
